@@ -46,7 +46,7 @@ type vkWorld struct {
 }
 
 func vkNewWorld(c *vkit.Ctx) (*vkWorld, error) {
-	g := vkBuild()
+	g := vkBuild(c.Thorough())
 	sim, err := authsim.Start(g.u)
 	if err != nil {
 		return nil, err
@@ -95,6 +95,7 @@ type vkCase struct {
 	Topo   string         `json:"topo"`
 	Cfg    h_rpipe.Config `json:"cfg"`
 	Kind   string         `json:"kind,omitempty"` // name of the budget level (tiny, default, edge-out ...)
+	Pin    int            `json:"pin,omitempty"`  // server-order pin: 0 = ranking's random source always 0, 1 = always n-1
 	Client vkClient       `json:"client"`
 }
 
@@ -107,6 +108,9 @@ func (cs vkCase) key() string {
 	}
 	if cs.Cfg.IPv6 {
 		k += "|ipv6"
+	}
+	if cs.Pin != 0 {
+		k += fmt.Sprintf("|pin%d", cs.Pin)
 	}
 	if !cs.Client.OPT && !cs.Client.DO {
 		k += "|no-edns-client"
@@ -121,7 +125,18 @@ func (cs vkCase) String() string {
 	} else if cs.Client.OPT {
 		cl = "OPT"
 	}
-	return fmt.Sprintf("%s [%s] client=%s", cs.Topo, cs.Cfg, cl)
+	pin := ""
+	if cs.Pin != 0 {
+		pin = fmt.Sprintf(" pin=%d", cs.Pin)
+	}
+	return fmt.Sprintf("%s [%s] client=%s%s", cs.Topo, cs.Cfg, cl, pin)
+}
+
+func vkPin(mode int) func(n int) int {
+	if mode == 1 {
+		return func(n int) int { return n - 1 }
+	}
+	return func(n int) int { return 0 }
 }
 
 type vkSnap struct {
@@ -277,6 +292,7 @@ func (w *vkWorld) runOnce(cs vkCase, second bool) vkRun {
 	pl := w.pipe(cs.Cfg)
 	pl.Reset()
 	w.sim.Reset()
+	h_rpipe.PinServerOrder(vkPin(cs.Pin)) // nothing is in flight here
 	w.g.vkInstall(w.sim, tp)
 	run := vkRun{Case: cs}
 	run.First = w.ask(pl, tp, cs.Client)
